@@ -92,7 +92,7 @@ func invParser(p *Parser) bool {
 //@ ensures [adv]  result != eof ==> p.pos > old(p.pos)
 
 //@ func (*Parser).checkASCIICloseQuote
-//@ requires invParser(p) && 0 <= idx
+//@ requires invParser(p) && 0 <= idx && idx <= 1<<48
 //@ ensures [pos] result0 ==> idx < result1 && result1 <= len(p.data)
 //@ loop 1 invariant [n] idx < nidx && nidx <= len(p.data)
 
